@@ -10,6 +10,7 @@ import NemoVerif.Lemmas.Pipeline
 import NemoVerif.Lemmas.PipelineV2
 import NemoVerif.Lemmas.PipelineTie
 import NemoVerif.Lemmas.PipelineCtx
+import NemoVerif.Lemmas.PipelineCall
 
 set_option linter.unusedSimpArgs false
 
@@ -262,5 +263,53 @@ example :
   decide
 
 end TwoContexts
+
+section Calls
+open NemoVerif.PipelineCall
+
+/-! ### failures that leave `generate` by design (`LLMCallException`, cancellation): `Models/PipelineCall.lean` -/
+
+/-- `propagated_failure_no_poison` (2.x): a call that ends by a propagated exception at any await point does not
+    poison the conversation — the next call from the state the caller was given before runs ALL input rails
+    on its user message (`gate`), exactly as if the failed call had never been made. -/
+theorem propagated_failure_no_poison_v2 (cfg : Cfg) (slot : Slot) (given : HistV2) (t t' : Turn) (f f' : Fault)
+    (hi : WF cfg .input) (ho : WF cfg .output) (hor : given.orip = false)
+    (hr : (callV2 false cfg slot given t f).reply.raised = true)
+    (hc : (callV2 false cfg slot given t' f').reply.raised = false) :
+    let next := (convCallsV2 false cfg slot given [(t, f), (t', f')]).getLast?
+    next = some (callV2 false cfg slot given t' f')
+    ∧ railCalls .input (callV2 false cfg slot given t' f').steps = gate (n2 t'.vin) cfg.inRails t'.user := by
+  have hs := (callV2_saved_none_iff false cfg slot given t f).mpr hr
+  refine ⟨by simp [convCallsV2, hs, callV2_false_slot], ?_⟩
+  rw [(callV2_false_completed cfg slot given t' f' hc).1, turnV2_eq_spec cfg _ t' hi ho hor, turnSpecV2_trace]
+  simp [railCalls_input_inStopV2, railCalls_input_restV2]
+
+/-- `propagated_failure_no_poison` (1.0): the history a call works on is a value (the event list of the state /
+    of the cache entry is only extended after the turn completed), so a call that ends by a propagated exception
+    hands nothing back and the conversation goes on as if it had never been made. -/
+theorem propagated_failure_no_poison_v1 (cfg : Cfg) (h : HistV1) (o : PipelineCtx.CallOpts) (t : Turn) (f : Fault)
+    (hr : (callV1 cfg h o t f).2.1.raised = true) (cs : List (PipelineCtx.CallOpts × Turn × Fault)) :
+    (callV1 cfg h o t f).2.2 = none
+    ∧ convCallsV1 cfg h ((o, t, f) :: cs) = callV1 cfg h o t f :: convCallsV1 cfg h cs := by
+  have hs : (callV1 cfg h o t f).2.2 = none := by
+    unfold callV1 at hr ⊢
+    cases hcut : f.cut (turnV1 (PipelineCtx.callCfg cfg o) h t).1 with
+    | some pre => simp [hcut]
+    | none =>
+      simp only [hcut] at hr ⊢
+      by_cases h2 : (turnV1 (PipelineCtx.callCfg cfg o) h t).2.1.raised = true
+      · simp [h2]
+      · simp [h2] at hr
+  exact ⟨hs, by simp [convCallsV1, hs]⟩
+
+/-- non-vacuity (1.0): the generation LLM call of the second call fails; the third call is the conversation's
+    second turn. -/
+example :
+    let cfg : Cfg := { inRails := [0], outRails := [0], dialog := false, exc := false, stops := fun _ _ => true, flagReset := true }
+    let t : Turn := { user := "u", bot := "b", intent := .free, actFault := false, retrFault := false, vin := fun _ _ => .accept, vout := fun _ _ => .accept }
+    (convCallsV1 cfg initV1 [({}, t, {}), ({}, t, { llm := some 0 }), ({}, t, {})]).map (fun r => (r.2.1.raised, r.2.1.texts))
+      = [(false, ["b"]), (true, []), (false, ["b"])] := by decide
+
+end Calls
 
 end NemoVerif.C03
